@@ -347,7 +347,7 @@ Definition expect_Channel_processInFlightQueue : list string :=
   ; "set dirty=true"
   ; "call c.popInFlightMessage"
   ; "if err != nil {"
-  ; "goto exit"
+  ; "continue"
   ; "}"
   ; "if msg.pri > t {"
   ; "call c.pushInFlightMessage"
@@ -480,6 +480,11 @@ Definition expect_Channel_empty : list string :=
   ; "}"
   ; "label finish:"
   ; "call c.backend.Empty"
+  ; "range discarded {"
+  ; "if ok {"
+  ; "call client.TimedOutMessage"
+  ; "}"
+  ; "}"
   ; "range c.clients {"
   ; "call client.Empty"
   ; "}"
